@@ -1,14 +1,256 @@
-import PartituraModel.Model.Ps13
-import PartituraModel.Model.Voices
-import PartituraModel.Model.KeyEst
+/-
+C17 — spelling, voice and key estimation are total, well-formed and pitch-preserving.
+Property theorems over Model/Ps13.lean, Model/Voices.lean, Model/KeyEst.lean and the tables
+regenerated from the source (Gen.Ps13Tables, Gen.Tables); helper lemmas live in Proofs/C17*.lean.
+-/
+import PartituraModel.Proofs.C17Ps13
+import PartituraModel.Proofs.C17Acc
+import PartituraModel.Proofs.C17Window
+import PartituraModel.Proofs.C17Voices
+import PartituraModel.Proofs.C17Key
 
 namespace C17
-open Model
+open Model Gen
 
-/-- every entry of the regenerated `KEYS` table formats to a valid key name -/
+/-! ### pitch spelling (ps13 stage 1) -/
+
+/-- the MIDI pitch a spelling sounds (`pitch_spelling_to_midi_pitch`, which is `Note.midi_pitch`) -/
+def sounding (s : String × Int × Int) : Option Int := spellingToMidi s.1 (some s.2.1) s.2.2
+
+/-- `p2pn` sounds the chromatic pitch, for EVERY chromatic pitch and EVERY morphetic pitch
+    (in particular every morph and octave the heuristic can choose) -/
+theorem p2pn_sounds (c mp : Int) : sounding (Ps13.p2pn c mp) = some (c + 21) :=
+  C17P.p2pn_sounds c mp
+
+/-- every note is spelled, and its spelling sounds exactly its MIDI pitch: any window sizes,
+    any onsets, any pitches, any row order -/
+theorem spelling_sounds (kpre kpost : Nat) (notes : List Ps13.Row) (sp : List (String × Int × Int))
+    (h : Ps13.ps13 kpre kpost notes = some sp) :
+    sp.length = notes.length ∧
+    ∀ i (hi : i < notes.length), ∃ s, sp[i]? = some s ∧ sounding s = some notes[i].2 := by
+  obtain ⟨h1, h2⟩ := C17P.ps13_spec kpre kpost notes sp h
+  refine ⟨h1, fun i hi => ?_⟩
+  obtain ⟨mp, hmp⟩ := h2 i hi
+  refine ⟨_, hmp, ?_⟩
+  rw [p2pn_sounds]; congr 1; omega
+
+/-- ps13 is total on non-empty arrays (the hypothesis of the theorems above is satisfiable by
+    every non-empty array) and rejects the empty one, as the code does (IndexError) -/
+theorem spelling_total (kpre kpost : Nat) (notes : List Ps13.Row) :
+    (notes ≠ [] → ∃ sp, Ps13.ps13 kpre kpost notes = some sp) ∧ Ps13.ps13 kpre kpost [] = none := by
+  constructor
+  · intro h; simp [Ps13.ps13, h]
+  · simp [Ps13.ps13]
+
+/-- the importer builds each `Note` from the spelling of its row (`create_part`), so the imported
+    pitches are exactly the file's: the list of sounding pitches of the spellings is the pitch column -/
+theorem midi_import_pitches (kpre kpost : Nat) (notes : List Ps13.Row) (sp : List (String × Int × Int))
+    (h : Ps13.ps13 kpre kpost notes = some sp) :
+    sp.map sounding = notes.map (fun r => some r.2) := by
+  obtain ⟨h1, h2⟩ := spelling_sounds kpre kpost notes sp h
+  apply List.ext_getElem
+  · simp [h1]
+  · intro i hi1 hi2
+    have hi : i < notes.length := by simpa using hi2
+    obtain ⟨s, hs, hsound⟩ := h2 i hi
+    have : sp[i]'(by omega) = s := by
+      rw [List.getElem?_eq_getElem (by omega)] at hs; exact Option.some.inj hs
+    simp [this, hsound]
+
+/-- WHOLE finite domain 12 x 12 x 12 (first-note chroma, note chroma, tonic chroma), decided by the
+    kernel on the regenerated tables: the morph a tonic assigns never needs more than a double accidental -/
+theorem double_acc_table : ∀ c0 cj ct : Fin 12,
+    -2 ≤ C17P.alterOf (cj.val : Int) (Ps13.morphForTonic (c0.val : Int) (cj.val : Int) (ct.val : Int)) ∧
+    C17P.alterOf (cj.val : Int) (Ps13.morphForTonic (c0.val : Int) (cj.val : Int) (ct.val : Int)) ≤ 2 :=
+  C17P.acc_table
+
+/-- at most a double accidental on every note of every array, for every window with K_post ≥ 1
+    (the note itself lies in its window; the default is K_post = 40) -/
+theorem double_acc_bound (kpre kpost : Nat) (hpost : 1 ≤ kpost) (notes : List Ps13.Row)
+    (sp : List (String × Int × Int)) (h : Ps13.ps13 kpre kpost notes = some sp) :
+    ∀ s ∈ sp, -2 ≤ s.2.1 ∧ s.2.1 ≤ 2 := fun s hs =>
+  C17P.stage1_alter_bound kpre kpost hpost _ s (C17P.ps13_mem_stage1 kpre kpost notes sp h s hs)
+
+/-- the same for the defaults of `ps13s1` as regenerated from the source -/
+theorem double_acc_default (notes : List Ps13.Row) (sp : List (String × Int × Int))
+    (h : Ps13.ps13Default notes = some sp) : ∀ s ∈ sp, -2 ≤ s.2.1 ∧ s.2.1 ≤ 2 :=
+  double_acc_bound PS13_K_PRE PS13_K_POST (by decide) notes sp h
+
+/-- the bound needs the note in its own window: with K_post = 0 the first note sees an empty
+    window, every morph strength is 0, `argmax` answers morph 0 = step A, and an E flat becomes
+    an A with six flats... (model-level witness; the code's default is 40) -/
+example : C17P.alterOf 6 0 = 6 := by decide +kernel
+
+/-- order independence: permuting the rows permutes the (row, spelling) pairs — a row that is the
+    only one with its (onset, pitch) therefore keeps its spelling, and rows that coincide in both
+    receive the same multiset of spellings -/
+theorem spelling_perm (kpre kpost : Nat) (notes notes' : List Ps13.Row)
+    (sp sp' : List (String × Int × Int)) (hp : notes.Perm notes')
+    (h : Ps13.ps13 kpre kpost notes = some sp) (h' : Ps13.ps13 kpre kpost notes' = some sp') :
+    (notes.zip sp).Perm (notes'.zip sp') := by
+  have e := C17P.sortedRows_eq_of_perm notes notes' hp
+  have p1 := C17P.ps13_zip_perm kpre kpost notes sp h
+  have p2 := C17P.ps13_zip_perm kpre kpost notes' sp' h'
+  rw [e] at p1
+  exact p1.trans p2.symm
+
+example : [((0 : Rat), (60 : Int)), (1, 64)].Perm [(1, 64), (0, 60)] := List.Perm.swap _ _ _
+
+/-! ### voice estimation (the search is a parameter) -/
+
+/-- `rename_voices` followed by the reversal `max - v + 1`: for every non-empty voice vector the
+    result has the same length, its set of values is exactly {1..k} with k the number of distinct
+    inputs (so all ≥ 1, no gaps), and two rows share a number iff they shared a voice -/
+theorem rename_gapless (vs : List Int) (h : vs ≠ []) :
+    ∃ out, Voices.finalize vs = some out ∧ out.length = vs.length ∧
+      (∀ x, x ∈ out ↔ 1 ≤ x ∧ x ≤ (vs.dedup.length : Int)) ∧
+      (∀ i j (hi : i < vs.length) (hj : j < vs.length), out[i]? = out[j]? ↔ vs[i] = vs[j]) := by
+  refine ⟨_, C17V.finalize_eq vs h, by simp, ?_, ?_⟩
+  · intro x
+    rw [← C17V.firstOcc_length]
+    simp only [List.mem_map]
+    constructor
+    · rintro ⟨v, hv, rfl⟩
+      have := List.idxOf_lt_length_of_mem ((C17V.mem_firstOcc vs v).mpr hv)
+      omega
+    · rintro ⟨h1, h2⟩
+      have hlt : ((C17V.firstOcc vs).length - x).toNat < (C17V.firstOcc vs).length := by omega
+      refine ⟨(C17V.firstOcc vs)[((C17V.firstOcc vs).length - x).toNat],
+        (C17V.mem_firstOcc vs _).mp (List.getElem_mem hlt), ?_⟩
+      rw [(C17V.firstOcc_nodup vs).idxOf_getElem]
+      omega
+  · intro i j hi hj
+    simp only [List.getElem?_map, List.getElem?_eq_getElem hi, List.getElem?_eq_getElem hj,
+      Option.map_some, Option.some.injEq]
+    constructor
+    · intro e
+      have e' : (C17V.firstOcc vs).idxOf vs[i] = (C17V.firstOcc vs).idxOf vs[j] := by omega
+      exact (List.idxOf_inj ((C17V.mem_firstOcc vs _).mpr (List.getElem_mem hi))).mp e'
+    · intro e; rw [e]
+
+/-- the empty vector is rejected (`max([])` raises ValueError) -/
+theorem rename_empty : Voices.finalize [] = none := C17V.finalize_none_nil
+
+example : Voices.finalize [5, 5, -1, 3] = some [3, 3, 2, 1] := by decide
+
+/-- chord mode: notes with identical onset and duration receive the same voice — for ANY search -/
+theorem chord_same_voice (vosa : Voices.Vosa) (notes : List Voices.VNote) (out : List Int)
+    (h : Voices.estimateVoices vosa false notes = some out) (i j : Nat)
+    (hi : i < notes.length) (hj : j < notes.length)
+    (hon : notes[i].2.1 = notes[j].2.1) (hdu : notes[i].2.2 = notes[j].2.2) :
+    out[i]? = out[j]? := by
+  apply C17V.chord_same_voice vosa notes out h i j hi hj
+  simp only [C17V.keyOf, List.getElem?_eq_getElem hi, List.getElem?_eq_getElem hj, Option.map_some, hon, hdu]
+
+/-- totality and well-formedness, both modes, zero-duration notes included (durations are
+    arbitrary rationals): if the search answers exactly the ids it was given, every input note
+    receives one voice, all voices are ≥ 1 and they are numbered 1..k without gaps -/
+theorem total_given_vosa (vosa : Voices.Vosa) (mono : Bool) (notes : List Voices.VNote) (hne : notes ≠ [])
+    (hc : C17V.VosaCovers vosa (Voices.vosaInput mono notes)) :
+    ∃ out, Voices.estimateVoices vosa mono notes = some out ∧ out.length = notes.length ∧
+      (∀ x ∈ out, 1 ≤ x) ∧ ∃ k : Int, ∀ x, x ∈ out ↔ 1 ≤ x ∧ x ≤ k := by
+  obtain ⟨out, voices, h1, h2, h3⟩ := C17V.total_given_vosa vosa mono notes hne hc
+  have hvne : voices ≠ [] := by
+    intro e; subst e; simp at h2; exact hne (List.eq_nil_of_length_eq_zero h2.symm)
+  obtain ⟨out', ho, hl, hg, _⟩ := rename_gapless voices hvne
+  rw [h3] at ho
+  cases ho
+  exact ⟨out, h1, by omega, fun x hx => ((hg x).mp hx).1, _, hg⟩
+
+/-- the hypothesis is satisfiable: a search that puts every row in voice 0 covers its input -/
+example (rows : List Voices.VRow) : C17V.VosaCovers (fun rows => rows.map fun r => (r.1, 0)) rows := by
+  simp [C17V.VosaCovers, Function.comp_def]
+
+/-- the empty array is rejected in both modes (the code raises) -/
+theorem voices_empty (vosa : Voices.Vosa) (mono : Bool) : Voices.estimateVoices vosa mono [] = none := by
+  simp [Voices.estimateVoices]
+
+/-! ### key estimation -/
+
+/-- every entry of the regenerated `KEYS` table formats to a valid key name (whole table) -/
 theorem key_valid_name :
     ∀ i, i < 24 → ∃ nm, KeyEst.keyNameAt i = some nm ∧
-      (nm ∈ Gen.MAJOR_KEYS ∨ ∃ r ∈ Gen.MINOR_KEYS, nm = r ++ "m") := by
+      (nm ∈ MAJOR_KEYS ∨ ∃ r ∈ MINOR_KEYS, nm = r ++ "m") := by
   decide
+
+/-- every estimate is one of those names: the argmax ranges over the 24 rows — for every note
+    list (empty, zero durations, constant histogram included) and every profile set -/
+theorem key_estimate_valid (ps : KeyEst.ProfileSet) (notes : List KeyEst.KNote) :
+    ∃ nm, KeyEst.estimateKey ps notes = some nm ∧ (nm ∈ MAJOR_KEYS ∨ ∃ r ∈ MINOR_KEYS, nm = r ++ "m") :=
+  key_valid_name _ (C17K.keyIndexOfHist_lt ps _)
+
+/-- the check of row `i` of `KEYS` used by `key_name_roundtrip` -/
+def keyRowOK (i : Nat) : Bool :=
+  match KEYS[i]? with
+  | none => false
+  | some (root, mode, fifths) =>
+    let nm := KeyEst.formatKey (root, mode, fifths)
+    let md := if i < 12 then Mode.major else Mode.minor
+    decide (keyNameToFifthsMode nm = some (fifths, md)) &&
+    decide (fifthsModeToKeyName fifths md = some nm) &&
+    decide (mode = if i < 12 then "major" else "minor") &&
+    decide ((noteNameToMidi (root ++ "4")).map (· % 12) = some ((i % 12 : Nat) : Int))
+
+/-- whole table: each name is accepted by `key_name_to_fifths_mode`, which returns the fifths and
+    mode listed in `KEYS`, and `fifths_mode_to_key_name` maps them back to the same name
+    (what the repaired `load_score_midi(estimate_key=True)` relies on); rows 0-11 are the major and
+    rows 12-23 the minor keys, row i having tonic pitch class i mod 12 (so "row (m/12, (m%12+s)%12)"
+    in `key_transpose` IS "tonic moved by s, same mode") -/
+theorem key_name_roundtrip : ∀ i, i < 24 → keyRowOK i = true := by
+  decide
+
+/-- octave shifts (any multiple of 12, per note) leave the estimate unchanged -/
+theorem key_octave_inv (ps : KeyEst.ProfileSet) (notes : List KeyEst.KNote) (shifts : List Int)
+    (hl : shifts.length = notes.length) :
+    KeyEst.estimateKey ps (List.zipWith (fun n k => (n.1 + 12 * k, n.2)) notes shifts) =
+    KeyEst.estimateKey ps notes := by
+  have : KeyEst.hist (List.zipWith (fun n k => (n.1 + 12 * k, n.2)) notes shifts) = KeyEst.hist notes := by
+    funext pc
+    rw [C17K.hist_octave, hl, List.take_length]
+  simp only [KeyEst.estimateKey, KeyEst.keyIndex, this]
+
+/-- rescaling all durations by any k > 0 leaves the estimate unchanged -/
+theorem key_scale_inv (ps : KeyEst.ProfileSet) (notes : List KeyEst.KNote) (k : Rat) (hk : 0 < k) :
+    KeyEst.estimateKey ps (notes.map fun n => (n.1, n.2 * k)) = KeyEst.estimateKey ps notes := by
+  have : KeyEst.hist (notes.map fun n => (n.1, n.2 * k)) = fun j => k * KeyEst.hist notes j := by
+    funext pc; exact C17K.hist_scale k notes pc
+  simp only [KeyEst.estimateKey, KeyEst.keyIndex, this, C17K.keyIndexOfHist_scale ps _ k hk]
+
+/-- key `m` has the strictly greatest exact correlation with the notes' histogram -/
+def UniqueMax (ps : KeyEst.ProfileSet) (notes : List KeyEst.KNote) (m : Nat) : Prop :=
+  C17K.UniqueMaxH ps (KeyEst.hist notes) m
+
+/-- under a unique maximum the estimate IS that maximum -/
+theorem key_is_unique_max (ps : KeyEst.ProfileSet) (notes : List KeyEst.KNote) (m : Nat)
+    (hu : UniqueMax ps notes m) : KeyEst.keyIndex ps notes = m :=
+  C17K.keyIndexOfHist_unique ps _ m hu
+
+/-- transposing every note by `s` semitones moves the estimated tonic by `s` (mod 12) and keeps the
+    mode: row (m / 12, m mod 12) becomes row (m / 12, (m mod 12 + s) mod 12) -/
+theorem key_transpose (ps : KeyEst.ProfileSet) (notes : List KeyEst.KNote) (s : Int) (m : Nat)
+    (hu : UniqueMax ps notes m) :
+    KeyEst.keyIndex ps (notes.map fun n => (n.1 + s, n.2)) = (m / 12) * 12 + (m % 12 + (s % 12).toNat) % 12 ∧
+    KeyEst.estimateKey ps (notes.map fun n => (n.1 + s, n.2)) =
+      KeyEst.keyNameAt ((m / 12) * 12 + (m % 12 + (s % 12).toNat) % 12) := by
+  have ht : (s % 12).toNat < 12 := by omega
+  have h := C17K.keyIndexOfHist_transpose ps (KeyEst.hist notes)
+    (KeyEst.hist (notes.map fun n => (n.1 + s, n.2))) (s % 12).toNat ht
+    (fun j hj => C17K.hist_transpose s notes j hj) m hu
+  exact ⟨h, by simp only [KeyEst.estimateKey, KeyEst.keyIndex, h]⟩
+
+/-- the hypothesis is satisfiable: a C major triad with a passing D has C major as its strictly
+    best key under the Krumhansl-Kessler profiles (exact rational arithmetic, kernel-evaluated) -/
+example : UniqueMax .kk [(60, 1), (64, 1), (67, 1), (62, 1 / 2), (72, 2)] 0 := by
+  unfold UniqueMax C17K.UniqueMaxH
+  decide +kernel
+
+/-- without it the claim fails: a single C is equally C major and C minor for the cbms profiles
+    (they are permutations of each other), the first maximum wins before and after transposing -/
+example : ¬ ∃ m, UniqueMax .cbms [(60, 1)] m := by
+  have key : ∀ m, m < 24 → ¬ UniqueMax .cbms [(60, 1)] m := by
+    unfold UniqueMax C17K.UniqueMaxH
+    decide +kernel
+  rintro ⟨m, hu⟩
+  exact key m hu.2.1 hu
 
 end C17
